@@ -14,6 +14,7 @@ import (
 	"seehuhn.de/go/postscript/funit"
 	"seehuhn.de/go/postscript/type1"
 
+	"vharness/fontgen"
 	"vharness/indep"
 	"vharness/model"
 )
@@ -346,27 +347,95 @@ func traceT1Nums(args []string) error {
 		paths = append(paths, 10000, 10000, 3000, 300)
 	}
 	pf := emptyFont()
+	shapes := map[string]int{}
 	for pi, n := range paths {
 		g := &type1.Glyph{WidthX: 100}
-		cx := func() float64 { return float64(rng.Intn(2000)-1000) + rng.Float64() }
-		g.MoveTo(cx(), cx())
+		// a third of the coordinates are integers: the h/v forms are only chosen where the
+		// position the decoder reconstructs coincides with the requested one
+		cx := func() float64 {
+			if rng.Intn(3) == 0 {
+				return float64(rng.Intn(2000) - 1000)
+			}
+			return float64(rng.Intn(2000)-1000) + rng.Float64()
+		}
+		px, py := cx(), cx()
+		g.MoveTo(px, py)
 		for s := 0; s < n; s++ {
-			switch rng.Intn(6) {
+			switch rng.Intn(7) {
 			case 0:
 				g.ClosePath()
-				g.MoveTo(cx(), cx())
+				px, py = cx(), cx()
+				g.MoveTo(px, py)
 			case 1, 2:
-				g.LineTo(cx(), cx())
+				px, py = cx(), cx()
+				g.LineTo(px, py)
 			case 3:
-				last := g.Cmds[len(g.Cmds)-1].Args
-				g.LineTo(cx(), last[len(last)-1]) // horizontal
+				px = cx()
+				g.LineTo(px, py) // horizontal
+			case 4:
+				py = cx()
+				g.LineTo(px, py) // vertical
 			default:
-				g.CurveTo(cx(), cx(), cx(), cx(), cx(), cx())
+				// the three curve forms: the writer picks hvcurveto / vhcurveto by coincidences
+				x1, y1, x2, y2, x3, y3 := cx(), cx(), cx(), cx(), cx(), cx()
+				switch rng.Intn(3) {
+				case 0:
+					y1, x3 = py, x2 // hvcurveto
+				case 1:
+					x1, y3 = px, y2 // vhcurveto
+				}
+				g.CurveTo(x1, y1, x2, y2, x3, y3)
+				px, py = x3, y3
 			}
 		}
 		g.ClosePath()
 		pf.Glyphs[fmt.Sprintf("p%d", pi)] = g
 	}
+	// staircases: one command form per glyph, every step 10 + 1/300, so that the
+	// rounding errors all have the same sign and add up unless the writer compensates
+	stairs := []string{"rlineto", "hlineto", "vlineto", "rrcurveto", "hvcurveto", "vhcurveto", "mixed"}
+	nst := 60
+	if tier == "thorough" {
+		nst = 2000
+	}
+	const st = 10 + 1.0/300
+	for si, form := range stairs {
+		g := &type1.Glyph{WidthX: 100}
+		px, py := 0.0, 0.0
+		g.MoveTo(px, py)
+		for s := 0; s < nst; s++ {
+			fm := form
+			if fm == "mixed" {
+				fm = []string{"hlineto", "rrcurveto", "vlineto", "rlineto"}[s%4]
+			}
+			switch fm {
+			case "rlineto":
+				px, py = px+st, py+st
+				g.LineTo(px, py)
+			case "hlineto":
+				px += st
+				g.LineTo(px, py)
+			case "vlineto":
+				py += st
+				g.LineTo(px, py)
+			case "rrcurveto":
+				g.CurveTo(px+st, py+st, px+2*st, py+2*st, px+3*st, py+3*st)
+				px, py = px+3*st, py+3*st
+			case "hvcurveto": // y in whole units (the form needs an exactly reconstructed y), x fractional
+				g.CurveTo(px+st, py, px+2*st, py+10, px+2*st, py+20)
+				px, py = px+2*st, py+20
+			case "vhcurveto": // x in whole units, y fractional
+				g.CurveTo(px, py+st, px+10, py+2*st, px+20, py+2*st)
+				px, py = px+20, py+2*st
+			}
+		}
+		g.ClosePath()
+		pf.Glyphs[fmt.Sprintf("p%d", len(paths)+si)] = g
+	}
+	for range stairs {
+		paths = append(paths, nst)
+	}
+	fontgen.SegmentShapes(pf, shapes)
 	buf.Reset()
 	if err := pf.Write(&buf, &type1.WriterOptions{Format: type1.FormatPFA}); err != nil {
 		return err
@@ -381,6 +450,7 @@ func traceT1Nums(args []string) error {
 	}
 	const bound = 1.0/214.0 + 1e-9
 	pathPoints := 0
+	forms := map[string]int{}
 	for pi, n := range paths {
 		name := fmt.Sprintf("p%d", pi)
 		want := pointsOf(pf.Glyphs[name])
@@ -388,6 +458,11 @@ func traceT1Nums(args []string) error {
 		if err != nil {
 			fails = append(fails, fail{"nums: written charstring not decodable", err.Error(), name})
 			continue
+		}
+		for _, it := range items {
+			if !it.Num {
+				forms[it.Cmd]++
+			}
 		}
 		got, _, _, err := runCharstring(items)
 		if err != nil {
@@ -415,6 +490,6 @@ func traceT1Nums(args []string) error {
 		}
 	}
 	return emit(map[string]any{"events": events, "failures": fails, "integers": len(vals), "fractions": len(fr),
-		"path_points": pathPoints, "max_deviation": maxDev, "bound": 1.0 / 214.0,
+		"path_points": pathPoints, "max_deviation": maxDev, "bound": 1.0 / 214.0, "shapes": shapes, "forms_written": forms,
 		"axes": []string{fmt.Sprintf("%d integers as deltas, %d widths/hints, %d fractional deltas, paths %v", len(vals), len(bnd), len(fr), paths)}})
 }
